@@ -228,6 +228,8 @@ pub struct RunOpts {
     /// where to write the evidence (part) file
     pub evidence_path: String,
     pub nshards: Option<usize>,
+    /// false for a part of a multi-flavour run: ./check enforces the minimum on the merged evidence
+    pub enforce_min: bool,
 }
 
 /// Runs a property; returns the process exit code.
@@ -361,7 +363,7 @@ pub fn run_prop(p: &dyn Prop, o: &RunOpts) -> i32 {
         }
         return 2;
     }
-    if distinct < p.min_nontrivial(o.tier) && !timed_out {
+    if o.enforce_min && distinct < p.min_nontrivial(o.tier) && !timed_out {
         println!(
             "HARNESS-ERROR property={} observed only {} distinct non-trivial cases (< {}): refusing to report 'held'",
             p.id(),
@@ -370,7 +372,7 @@ pub fn run_prop(p: &dyn Prop, o: &RunOpts) -> i32 {
         );
         return 2;
     }
-    if timed_out && distinct < 2 {
+    if o.enforce_min && timed_out && distinct < 2 {
         println!("HARNESS-ERROR property={} watchdog fired before anything was observed", p.id());
         return 2;
     }
